@@ -4,14 +4,14 @@ LEVEL = "other"
 HARNESS = ["c20_math.cpp"]
 MODULE = "c20"
 BOUNDS = {
-    "quick": {"arithmetic": "Real mode: every float operation of the IR is interpreted over the reals (no rounding), inputs are arbitrary reals", "obligations": "Matrix3 product/transpose/determinant laws, Invert (both sides, singular case), InverseTransform o t and t o InverseTransform = identity (as transform and on a point), ComposeTransforms vs sequential ApplyTransform, ToMatrix, ApplyTransformToDiff, RotVecToMat orthonormal + det 1 (all code branches), RotMatToVec(RotVecToMat(v)) = v for 0.02<|v|<1 (asin branch) and 1.1<|v|<3 (acos branch), average/median of n<=3 identical transforms, bounding sphere of <=2 points", "solver": "z3 nlsat (QF_NRA), 120 s per query"},
+    "quick": {"arithmetic": "Real mode: every float operation of the IR is interpreted over the reals (no rounding), inputs are arbitrary reals", "obligations": "Matrix3 product/transpose/determinant laws, Invert (both sides, singular case), InverseTransform o t and t o InverseTransform = identity (as transform and on a point), ComposeTransforms vs sequential ApplyTransform, ToMatrix, ApplyTransformToDiff, RotVecToMat orthonormal + det 1 (all code branches), RotMatToVec(RotVecToMat(v)) = v for 0.02<|v|<1 (asin branch) and 1.1<|v|<3 (acos branch), average/median of n<=3 identical transforms, bounding sphere of <=2 points, BSTriShape / NiTriShapeData UpdateBounds after the vertices moved (<=2 vertices, caches filled before)", "solver": "z3 nlsat (QF_NRA), 120 s per query"},
     "thorough": {"arithmetic": "as quick", "obligations": "as quick plus bounding sphere of 3 points (attempted, inconclusive queries are reported) and averages of n<=4", "solver": "z3 nlsat, 600 s per query"},
 }
 ASSUMPTIONS = [
     "the claim is: the formulas in the code satisfy the laws exactly over the real numbers (this is what catches a swapped index, sign, operand or composition order). 'Within float tolerance' for general inputs is NOT claimed: it needs a floating-point error analysis (z3 FP answered unknown after 300 s on a four-operation tolerance query)",
     "sqrt(x) is a fresh r >= 0 with r*r = x; x/y is a fresh q with q*y = x on paths where y != 0; sin/cos of an angle are a pair (s,c) with s*s+c*c = 1 and sign facts on [0,pi]; asin/acos return the angle whose sin/cos was taken when it lies in the principal range (axioms instantiated per call site, listed in nifsym/models.py)",
     "rotation-vector round trip: only 0.02 < |v| < 1 and 1.1 < |v| < 3 (two code branches); the branch at a half turn (cosang <= -1) and |v| in [1,1.1] are outside the claim",
-    "bounding spheres (Miniball) for more than 2 points and UpdateBounds wiring are outside the quick claim",
+    "bounding spheres (Miniball) for more than 2 points are outside the quick claim",
     "native validation uses a float tolerance of 2e-3 (relative) on the same assertions",
 ]
 EXPLANATION = ("Solver-based check of the real code in 'Real mode': nifsym executes the LLVM bitcode of Object3d.hpp/.cpp symbolically with "
@@ -43,6 +43,9 @@ def jobs(tier, seed):
             add("h_average", [n, med])
     add("h_bounds", [1])
     add("h_bounds", [2])
+    for kind in (0, 1):
+        for n in (1, 2):
+            add("h_shape_bounds", [kind, n])
     if not q:
         add("h_bounds", [3])
     return J
